@@ -21,7 +21,7 @@ pub fn spec() -> Spec {
         case_cap_s: |t| t.pick(60, 300),
         rule: "family 'roundtrip': every labeled complete D-symbol (connected or not) of dimension 1-3 up to the size bound with branching in V, printed from PartialDSym and SimpleDSym, parsed back, compared structurally (dim, size, every op, every v), and printed again; family 'large': harness-built coset symbols of finite Coxeter groups with 10-384 (thorough: 1152) chambers (multi-digit numbers) under 9 systematic renumberings, and generator outputs with >= 10 chambers; family 'edit' (deviation-bounded): deviation 0 = every text of family 'roundtrip' up to the edit size bound, deviation 1 = every single-token edit of it (replace a number by each of 10 boundary values, replace/delete/duplicate/insert a token, truncate), deviation 2 on the texts of symbols of size <= 2 with all v = 1; family 'soup': every string of <= L tokens over a 14-token alphabet. Oracle for every parse: no panic, no abort, returns within the cap; Ok(sym) => every op is a total involution on 1..size, every degree is a multiple of its orbit length (orbit walks of the reference model), and print(sym) parses back to the same symbol. Non-trivial = a text that the parser accepts, or a symbol of size >= 2.",
         assumptions: &["texts are produced by the crate's own Display (that is the property: print then parse)"],
-        bounds: |t| json!({"roundtrip_max_size": t.pick(3, 4), "V": [1,2,3], "V_at_size_4": [1,2], "edit_max_size": t.pick(2, 3), "edit_size3_only_unbranched_dim2": true,
+        bounds: |t| json!({"roundtrip_max_size": t.pick(3, 4), "V": [1,2,3], "huge_degree_family": "sizes <= 2 [3], one orbit with v = 2^b-1, 2^b, 2^b+1 for b in 7,8,15,16,31,32,53,59", "V_at_size_4": [1,2], "edit_max_size": t.pick(2, 3), "edit_size3_only_unbranched_dim2": true,
             "deviation2_max_size": 2, "soup_tokens": t.pick(4, 5), "large_sizes": "10..384 (thorough 1152)", "generator_outputs_min_size": 10, "generator_dsets_max_size": t.pick(10, 11)}),
     }
 }
@@ -310,6 +310,25 @@ fn run(ctx: &mut Ctx) {
                         if let (Some(t), true) = (text, edit) {
                             edit_case(ctx, &t, n <= 2 && unbranched);
                         }
+                    }
+                });
+            });
+        }
+    }
+    // huge degrees: every power-of-two boundary of the integer widths, on one orbit at a time
+    let mut huge: Vec<usize> = vec![1];
+    for b in [7u32, 8, 15, 16, 31, 32, 53, 59] {
+        for x in [(1usize << b) - 1, 1usize << b, (1usize << b) + 1] {
+            huge.push(x);
+        }
+    }
+    for dim in 1..=3usize {
+        for n in 1..=tier.pick(2, 3) {
+            for_each_labeled_set(dim, n, true, &mut |ops| {
+                for_each_branching(ops, &huge, 1, &mut |s| {
+                    if s.v.iter().any(|r| r.iter().any(|&x| x > 1)) && ctx.take() {
+                        roundtrip(ctx, "huge-degree", s);
+                        ctx.add("huge_degree_symbols", 1);
                     }
                 });
             });
